@@ -36,6 +36,22 @@ CHECKS = {
              text='All 1591 rows of tld_list as clang evaluates them, the header, auto_tld.c text and tld-domains.txt are compared with the output of the generators\' rules, whose parameters (type map, manager overrides, formats) are read from util/*.pl on every run; raw.csv and punycode.csv are cross-checked row by row via RFC 3492 encoding.',
              note='Perl generators cannot be executed here (Text::CSV missing); their rules are re-evaluated from parameters extracted from the Perl text, and an unrecognised generator edit stops the check with exit 2. Python csv is assumed to read the shipped files as Text::CSV does.',
              ref='DESIGN.md section 3 / C11'),
+ 'C13': dict(level='other', technique='field-sensitive incoming-read / write analysis over all paths of the eav_t entry points (3 backends), static callee inlined',
+             text='The history quantifier is reduced to per-call facts decided on every path: eav_is_email reads of the incoming object only inputs, fields derived by the last successful eav_setup and backend context; errcode, idnmsg and result are overwritten (or known NULL) on every path and their old values feed only their own release; eav_setup assigns constants of the arm on success and leaves the derived fields alone on failure; eav_free releases and nulls; eav_init assigns every field any entry point reads. With C14 (no shared mutable state) no earlier call can influence a later one, for histories of any length.',
+             note='Heap-level exactly-once is argued from path pairing plus the single storage location of the result pointer. Trusts clang-14 AST and lib/cfgpaths.py.',
+             ref='DESIGN.md section 3 / C13'),
+ 'C15': dict(level='other', technique='message-table rules + path rules on eav_is_email/eav_setup/eav_errstr (3 backends) + monitor automata in the product with the extracted scanners',
+             text='errors[] has one message per code and message i names condition i (keyword table from the enumerator names); every validator return is a describable code; on every path return 1 iff errcode NO_ERROR, errcode = -rc, idnmsg = backend strerror(result->idn_rc) iff IDN error; eav_setup leaves the code it returns; per-input truth: whenever an extracted scanner returns code E on any string of any length, the fact E names holds (joint exploration with monitor automata; early returns are checked against every extension).',
+             note='Monitors state necessary conditions of each code (e.g. TOO_MANY_DOTS => ".." occurs); "a local-part error only if the local part is invalid" is C02/C03 in the reject direction. The IDN library message table is not analysed.',
+             ref='DESIGN.md section 3 / C15'),
+ 'C16': dict(level='other', technique='path summaries of the six e-mail functions, default and -DEAV_EXTRA variants; family establishment rule shared with C05',
+             text='On every path of is_822/5321/5322_email and is_6531_email (3 backends), with and without EAV_EXTRA: flags cleared first, at most one set, set exactly when both validators succeeded and matching the branch/family established on the path, none set after a failure; rc is 0, a class (only with tld_check) or a negative code; EAV_EXTRA strings are NULL-initialised, duplicated only on success with the exact pointer differences for the two halves, and released with the record by eav_result_free.',
+             note='Syntactic validity of each half is what the per-part validators report (their languages: C02-C05). Trusts clang-14 AST and lib/cfgpaths.py.',
+             ref='DESIGN.md section 3 / C16'),
+ 'C19': dict(level='other', technique='failure-edge path rules on is_utf8_domain / is_6531_email / eav_is_email in three backends',
+             text='Every possible library return code other than the success constant takes one CFG edge; on that edge the function returns -EEAV_IDN_ERROR with *r holding the code, calls none of the domain checks, and releases the output buffer iff non-NULL exactly once (all paths: NULL-initialised, no use after free); callers set is_domain only for rc >= 0 and take the message from result->idn_rc with the backend strerror; the next call resets it (C13).',
+             note='What the IDN library itself allocates or leaks is outside the repository. Trusts clang-14 AST and lib/cfgpaths.py; idn/idnkit parsed against stubs.',
+             ref='DESIGN.md section 3 / C19'),
 }
 
 NOT_YET = {}
